@@ -4,10 +4,13 @@ import (
 	"context"
 	"errors"
 	"fmt"
+	"net"
+	"os"
 	"strconv"
 	"strings"
 	"sync"
 	"sync/atomic"
+	"time"
 
 	"github.com/AdguardTeam/AdGuardDNS/internal/dnsserver"
 	"github.com/miekg/dns"
@@ -48,8 +51,13 @@ type shape struct {
 	Propagate bool   `json:"propagate_write_error"`
 	// NoWrite: "" the handler writes; "nil" it returns nil without writing
 	// (what a rate limiter or an access check does when it drops a query);
-	// "error" it returns an error without writing.
+	// "error" it returns an error without writing; "timeout" / "deadline" the
+	// error is of the kind the servers treat as a non-critical network error
+	// (a net.Error with Timeout, os.ErrDeadlineExceeded).
 	NoWrite string `json:"handler_writes_nothing,omitempty"`
+	// Park: the handler reports that it holds the query and writes only when
+	// the driver releases it (shutdown phase).
+	Park bool `json:"park,omitempty"`
 }
 
 var (
@@ -64,6 +72,12 @@ func (s shape) qname() string {
 		e = 2
 	case s.NoWrite == "error":
 		e = 3
+	case s.NoWrite == "timeout":
+		e = 4
+	case s.NoWrite == "deadline":
+		e = 5
+	case s.Park:
+		e = 6
 	case s.Propagate:
 		e = 1
 	}
@@ -105,6 +119,12 @@ func parseShape(qname string) (s shape, err error) {
 		s.NoWrite = "nil"
 	case 3:
 		s.NoWrite = "error"
+	case 4:
+		s.NoWrite = "timeout"
+	case 5:
+		s.NoWrite = "deadline"
+	case 6:
+		s.Park = true
 	}
 
 	return s, nil
@@ -415,6 +435,13 @@ func packedLen(m *dns.Msg) (n int, err error) {
 	return len(b), nil
 }
 
+// timeoutErr is a net.Error whose Timeout is true.
+type timeoutErr struct{}
+
+func (timeoutErr) Error() string   { return "c08: scripted i/o timeout" }
+func (timeoutErr) Timeout() bool   { return true }
+func (timeoutErr) Temporary() bool { return true }
+
 var errNoWrite = errors.New("c08: scripted handler failure without a response")
 
 // hRecord is what H8 observed for one invocation.
@@ -422,6 +449,7 @@ type hRecord struct {
 	Server   string `json:"server"`
 	WriteErr string `json:"write_err,omitempty"`
 	NoWrite  string `json:"handler_wrote_nothing,omitempty"`
+	Parked   bool   `json:"parked,omitempty"`
 	Size     int    `json:"handler_size"`
 	// UpstreamCalls is, in the ecs-cache phase, how many times the scripted
 	// upstream was called for this request (0: served from cache).
@@ -437,6 +465,9 @@ type h8 struct {
 
 	// pooled answers the stored kinds from the shared Cloner.
 	pooled *pooledState
+
+	// park releases the parked queries (shutdown phase).
+	park parkGate
 
 	mu      sync.Mutex
 	waiters map[int]chan hRecord
@@ -495,12 +526,28 @@ func (h *h8) ServeDNS(ctx context.Context, rw dnsserver.ResponseWriter, req *dns
 		rec.Server = si.Name
 	}
 
+	if sh.Park {
+		h.report(sh.Cell, hRecord{Server: rec.Server, Size: size, Parked: true})
+		if ch := h.park.current(); ch != nil {
+			select {
+			case <-ch:
+			case <-time.After(30 * time.Second):
+			}
+		}
+	}
+
 	if sh.NoWrite != "" {
 		// The server is on its own.
 		rec.NoWrite = sh.NoWrite
 		h.report(sh.Cell, rec)
-		if sh.NoWrite == "error" {
+		switch sh.NoWrite {
+		case "error":
 			return errNoWrite
+		case "timeout":
+			// What an upstream exchange that timed out returns.
+			return fmt.Errorf("c08: upstream: %w", &net.OpError{Op: "read", Net: "udp", Err: timeoutErr{}})
+		case "deadline":
+			return fmt.Errorf("c08: upstream: %w", os.ErrDeadlineExceeded)
 		}
 
 		return nil
